@@ -267,6 +267,31 @@ def gen(rng, tier):
     for bits in WIDTHS:
         for c in threshold_cases(bits):
             light.append(c)
+    # serde visitor entry points (`sv`): every visitor method x both `is_human_readable` answers, independent of a format
+    for bits in [0, 1, 7, 8, 12, 16, 63, 64, 65, 100, 128, 256]:
+        nb = nbytes(bits)
+        m = 1 << bits
+        vals = [0, 1, m - 1 if bits else 0, m, m + 1, struct_value(rng, bits), struct_value(rng, min(bits, 64)), (1 << 63), (1 << 64) - 1, (1 << 127), (1 << 128) - 1]
+        for hr in (0, 1):
+            for v in vals:
+                light.append('sv %d %d u64 %016x' % (bits, hr, v % (1 << 64)))
+                light.append('sv %d %d i64 %016x' % (bits, hr, v % (1 << 64)))
+                light.append('sv %d %d u128 %032x' % (bits, hr, v % (1 << 128)))
+                light.append('sv %d %d i128 %032x' % (bits, hr, v % (1 << 128)))
+                light.append('sv %d %d i64 %016x' % (bits, hr, (-(v % (1 << 62)) - 1) % (1 << 64)))
+            for f in (0.0, 1.0, 2.0, 255.0, 0.5, 1e300, -1.0, float(m) if bits < 1000 else 1.0, float(max(m - 1, 0)) if bits < 1000 else 1.0):
+                import struct as _st
+                light.append('sv %d %d f64 %s' % (bits, hr, _st.pack('>d', f).hex()))
+                light.append('sv %d %d f32 %s' % (bits, hr, _st.pack('>f', min(max(f, -3e38), 3e38)).hex()))
+            # (no `char`: serde's provided `visit_char` forwards to `visit_str`, which is the string parser's business)
+            for kind, pay in (('bool', '01'), ('bool', '00'), ('unit', '-'), ('none', '-')):
+                light.append('sv %d %d %s %s' % (bits, hr, kind, pay))
+            # byte strings and sequences of u8: exact length, one shorter, one / several longer, over-long with leading zeros
+            for kind in ('bytes', 'seq'):
+                for v in vals[:6]:
+                    be = (v % (1 << (8 * nb))).to_bytes(nb, 'big') if nb else b''
+                    for pay in (be, be[1:], b'\x00' + be, be + b'\x00', be + b'\x56', be + bytes(3), b'\x00' * 2 + be, bytes(rng.getrandbits(8) for _ in range(nb + rng.randrange(0, 4)))):
+                        light.append('sv %d %d %s %s' % (bits, hr, kind, hb(pay)))
     # bigint
     for bits in WIDTHS:
         m = 1 << bits
